@@ -28,7 +28,17 @@ AtomsCols == [ atomic    |-> <<"id", "type", "x", "y", "z">>,
                full      |-> <<"id", "mol", "type", "q", "x", "y", "z">>,
                sphere    |-> <<"id", "type", "diameter", "density", "x", "y", "z">>,
                hybridq   |-> <<"id", "type", "x", "y", "z", "q">>,           \* "hybrid charge": atomic columns, then the sub-style's extra ones
-               hybridsq  |-> <<"id", "type", "x", "y", "z", "diameter", "density", "q">> ]     \* "hybrid sphere charge"
+               hybridsq  |-> <<"id", "type", "x", "y", "z", "diameter", "density", "q">>,      \* "hybrid sphere charge"
+               \* less common styles: "o1".."o5" are the style's own columns in the order of the LAMMPS manual (values given by y.atoms[id][8])
+               peri      |-> <<"id", "type", "o1", "density", "x", "y", "z">>,                             \* volume
+               dipole    |-> <<"id", "type", "q", "x", "y", "z", "o1", "o2", "o3">>,                       \* mux muy muz
+               electron  |-> <<"id", "type", "q", "o1", "o2", "x", "y", "z">>,                             \* spin eradius
+               ellipsoid |-> <<"id", "type", "o1", "density", "x", "y", "z">>,                             \* ellipsoidflag
+               line      |-> <<"id", "mol", "type", "o1", "density", "x", "y", "z">>,                      \* lineflag
+               tri       |-> <<"id", "mol", "type", "o1", "density", "x", "y", "z">>,                      \* triangleflag
+               body      |-> <<"id", "type", "o1", "o2", "x", "y", "z">>,                                  \* bodyflag mass
+               wavepacket |-> <<"id", "type", "q", "o1", "o2", "o3", "o4", "o5", "x", "y", "z">> ]         \* spin eradius etag cs_re cs_im
+OtherNames == <<"o1", "o2", "o3", "o4", "o5">>
 \* Velocities section: id vx vy vz, plus the angular velocity wx wy wz for sphere-like styles (y.nvel = 4 or 7)
 VelCols == << "id", "vx", "vy", "vz" >>
 IndexOf(seq, v) == CHOOSE i \in 1..Len(seq) : seq[i] = v
@@ -116,6 +126,8 @@ VerdictData(r) ==
     ELSE IF Has(cols, "q") /\ (\E i \in 1..Len(g.rows) : ~Close(g.rows[i].v[IndexOf(cols, "q")], y.atoms[g.rows[i].v[1]][3], sl)) THEN "charge_not_in_the_requested_units"
     ELSE IF Has(cols, "diameter") /\ (\E i \in 1..Len(g.rows) : ~Close(g.rows[i].v[IndexOf(cols, "diameter")], y.atoms[g.rows[i].v[1]][4], sl)) THEN "diameter_not_in_the_requested_units"
     ELSE IF Has(cols, "density") /\ (\E i \in 1..Len(g.rows) : ~Close(g.rows[i].v[IndexOf(cols, "density")], y.atoms[g.rows[i].v[1]][5], sl)) THEN "density_not_in_the_requested_units"
+    ELSE IF \E i \in 1..Len(g.rows) : \E k \in 1..5 : Has(cols, OtherNames[k]) /\
+              ~Close(g.rows[i].v[IndexOf(cols, OtherNames[k])], y.atoms[g.rows[i].v[1]][8][k], sl) THEN "style_specific_column_wrong_or_misplaced"
     ELSE IF \E i \in 1..Len(g.rows) : LET row == g.rows[i]  ix == IndexOf(cols, "x")
                                             p == <<row.v[ix], row.v[ix+1], row.v[ix+2]>> IN
               ~InsideTri(p, g.lo, g.hi, g.tilt, 2*sl) THEN "atom_outside_the_written_bounds"
